@@ -30,6 +30,12 @@ def edge_recipes():
         ['mp', ['dyn', ['dyn', P1, [[0, pi2v.IMP(M(0), pi2v.IMP(M(1), M(0)))], [1, M(2)]]], [[2, M(2)]]], P1],
         ['mp', ['dyn', P1, [[0, pi2v.IMP(M(0), pi2v.IMP(M(1), M(0)))], [1, M(2)]]], ['dyn', P1, [[7, N['neg'](X1)]]]],
         ['gen', P1, 0], ['gen', ['dyn', P1, [[0, X1]]], 0], ['gen', ['dyn', P1, [[0, X0], [1, X1]]], 1],
+        # a mu whose bound variable is re-bound by an inner mu (bot = mu X0 . X0) in a negatively checked position
+        ['dyn', P1, [[0, pi2v.MU(0, pi2v.IMP(N['neg'](S0), pi2v.SV(0)))]]],
+        ['dyn', P1, [[1, pi2v.MU(0, pi2v.IMP(pi2v.IMP(pi2v.MU(0, pi2v.IMP(S1, pi2v.SV(0))), S0), pi2v.SV(0)))]]],
+        # generalisation that needs the freshness constraints of the plugs (variable ids 0 and 1)
+        ['gen', ['dyn', P1, [[0, M(0, [0])], [1, M(1, [0])]]], 0], ['gen', ['dyn', P1, [[0, M(0, [1])], [1, M(1, [1, 0])]]], 1],
+        ['gen', ['dyn', P1, [[0, M(2, [0], [0])], [1, M(1, [0], [], [0])]]], 0],
         Q, ['dyn', Q, [[0, X1]]], ['dyn', Q, [[0, pi2v.EX(1, pi2v.EV(0))]]],
         ['lemma', 'imp_refl', [{'pattern': REV_NOT}]],
         ['lemma', 'imp_transitivity', [{'thunk': ['dyn', P1, [[0, M(0)], [1, M(0)]]]}, {'thunk': ['lemma', 'imp_refl', [{'pattern': pi2v.IMP(M(0), M(0))}]]}]],
